@@ -120,3 +120,13 @@ VARIANTS += [
       "            y[day, away_idx] = -(home_idx + 1)\n            break\n"
       "        else:\n            continue\n", "silent"),
 ]
+
+VARIANTS += [
+    V("games-cut-off-at-slot-count", "moptipyapps/ttp/game_encoding.py",
+      "    for game in x:", "    for game in x[:days * (n // 2)]:", "fire",
+      "D15.1"),
+    V("games-last-one-skipped", "moptipyapps/ttp/game_encoding.py",
+      "    for game in x:", "    for game in x[:-1]:", "fire", "D15.1"),
+    V("silent-games-full-slice", "moptipyapps/ttp/game_encoding.py",
+      "    for game in x:", "    for game in x[0:len(x)]:", "silent"),
+]
